@@ -28,8 +28,10 @@
 (* Output: chunks, a sequence of [ok |-> TRUE, t |-> text] / [ok |-> FALSE], *)
 (* and extract_text's result [ok, t].                                        *)
 (*                                                                          *)
-(* Two layers (DESIGN 2.9).  Impl-shaped: Step / Flush / Run, exactly as the *)
-(* code is (one Step per content operation).  Declarative: the facts a user  *)
+(* Two layers (DESIGN 2.9).  Impl-shaped: StepR / Flush / RunR, exactly as   *)
+(* the code is for rep = {} (one Step per content operation), with the       *)
+(* proposed repairs as switches.  Declarative: what the page shows (Shown:   *)
+(* Tj TJ ' " under the font of the graphics state) and the facts a user      *)
 (* relies on, ClauseA .. ClauseD, stated on the inputs without the automaton.*)
 (***************************************************************************)
 EXTENDS Integers, Sequences, FiniteSets, SequencesExt, TLC
@@ -69,39 +71,71 @@ Collect(f, text, operands) ==
                         [] OTHER -> acc,
              [ok |-> TRUE, t |-> text], operands)
 
-\* enc: "none" or the resource name of the current font; failed: the whole call returned Err
-Start(fm) == [enc |-> "none", text |-> <<>>, failed |-> FALSE,
+(* The code as it is knows Tf, Tj, TJ and ET.  Three repairs are switches of this layer (rep \subseteq   *)
+(* AllReps; {} = as the code is), named like the findings they remove:                                   *)
+(*   quote-ops    ' and " show text too (for " the text is the third operand)                            *)
+(*   gstate-font  q saves and Q restores the current font (a restored font that differs starts a chunk)  *)
+(*   et-flag      ET writes its newline unless the text ends with a newline that an ET wrote (as the     *)
+(*                code is: unless the text ends with any newline, also one that was shown)               *)
+AllReps == {"quote-ops", "gstate-font", "et-flag"}
+
+\* enc: "none" or the resource name of the current font; failed: the whole call returned Err;
+\* saved: the fonts saved by q; sep: the text ends with a newline written by ET
+Start(fm) == [enc |-> "none", text |-> <<>>, failed |-> FALSE, saved |-> <<>>, sep |-> FALSE,
               chunks |-> [i \in 1..Cardinality(Broken(fm)) |-> ErrChunk]]
+
+IsQuote(o) == o.op \in {"'", "\""}
+\* the operands that hold the text: for " the first two are the word and character spacing
+ShowOperands(o) == IF o.op = "\"" THEN SubSeq(o.args, 3, Len(o.args)) ELSE o.args
 
 OpKind(o) == CASE o.op = "Tf" -> IF o.args = <<>> THEN "TfNoOperand"
                                  ELSE IF o.args[1].k # "name" THEN "TfNotName"
                                  ELSE "TfName"
                [] o.op \in {"Tj", "TJ"} -> "Show"
+               [] IsQuote(o) -> "Quote"
+               [] o.op = "q" -> "Save"
+               [] o.op = "Q" -> "Restore"
                [] o.op = "ET" -> "ET"
                [] OTHER -> "Other"
 
-FlushText(st) == IF st.text # <<>> THEN [st EXCEPT !.chunks = Append(@, OkChunk(st.text)), !.text = <<>>] ELSE st
+FlushText(st) == IF st.text # <<>> THEN [st EXCEPT !.chunks = Append(@, OkChunk(st.text)), !.text = <<>>, !.sep = FALSE] ELSE st
 
-Step(fm, st, o) ==
+ShowStep(fm, st, operands) ==
+    IF st.enc = "none" THEN st
+    ELSE LET r == Collect(fm[st.enc], st.text, operands)
+             grown == [st EXCEPT !.text = r.t, !.sep = IF Len(r.t) # Len(st.text) THEN FALSE ELSE @]
+         IN IF r.ok THEN grown ELSE [grown EXCEPT !.chunks = Append(@, ErrChunk)]
+
+StepR(fm, st, o, rep) ==
     IF st.failed THEN st
     ELSE CASE OpKind(o) = "TfNoOperand" -> [st EXCEPT !.failed = TRUE]
            [] OpKind(o) = "TfName" ->
                   FlushText([st EXCEPT !.enc = IF o.args[1].v \in Known(fm) THEN o.args[1].v ELSE "none"])
            [] OpKind(o) = "TfNotName" ->            \* the error chunk is pushed before the pending text
                   FlushText([st EXCEPT !.enc = "none", !.chunks = Append(@, ErrChunk)])
-           [] OpKind(o) = "Show" ->
-                  IF st.enc = "none" THEN st
-                  ELSE LET r == Collect(fm[st.enc], st.text, o.args) IN
-                       IF r.ok THEN [st EXCEPT !.text = r.t]
-                       ELSE [st EXCEPT !.text = r.t, !.chunks = Append(@, ErrChunk)]
+           [] OpKind(o) = "Show" -> ShowStep(fm, st, o.args)
+           [] OpKind(o) = "Quote" -> IF "quote-ops" \in rep THEN ShowStep(fm, st, ShowOperands(o)) ELSE st
+           [] OpKind(o) = "Save" -> IF "gstate-font" \in rep THEN [st EXCEPT !.saved = Append(@, st.enc)] ELSE st
+           [] OpKind(o) = "Restore" ->
+                  IF "gstate-font" \in rep /\ st.saved # <<>>
+                  THEN LET back == st.saved[Len(st.saved)]
+                           popped == [st EXCEPT !.saved = SubSeq(@, 1, Len(@) - 1)]
+                       IN IF back # st.enc THEN [FlushText(popped) EXCEPT !.enc = back] ELSE popped
+                  ELSE st
            [] OpKind(o) = "ET" ->
-                  IF st.text = <<>> \/ st.text[Len(st.text)] # NL THEN [st EXCEPT !.text = Append(@, NL)] ELSE st
+                  IF "et-flag" \in rep
+                  THEN (IF ~st.sep THEN [st EXCEPT !.text = Append(@, NL), !.sep = TRUE] ELSE st)
+                  ELSE (IF st.text = <<>> \/ st.text[Len(st.text)] # NL THEN [st EXCEPT !.text = Append(@, NL), !.sep = TRUE] ELSE st)
            [] OTHER -> st
 
 \* end of the content: flush; a failed call is reported by extract_text_chunks as the single chunk Err
 Finish(st) == IF st.failed THEN <<ErrChunk>> ELSE FlushText(st).chunks
 
-Run(fm, ops) == Finish(FoldLeft(LAMBDA st, o : Step(fm, st, o), Start(fm), ops))
+RunR(fm, ops, rep) == Finish(FoldLeft(LAMBDA st, o : StepR(fm, st, o, rep), Start(fm), ops))
+
+\* as the code is
+Step(fm, st, o) == StepR(fm, st, o, {})
+Run(fm, ops) == RunR(fm, ops, {})
 
 \* extract_text: `?' on every chunk, push_str otherwise
 ExtractText(chunks) ==
@@ -126,39 +160,50 @@ Strings(operands) == FoldLeft(LAMBDA acc, o : CASE o.k = "str" -> Append(acc, o.
 \* the font a Tf selects for showing text ("none": nothing that can be decoded)
 Selected(fm, o) == IF OpKind(o) = "TfName" /\ o.args[1].v \in Known(fm) THEN o.args[1].v ELSE "none"
 
-\* the text shown per Tf selection: one entry per Tf (and one for the text before the first Tf), each the
-\* in-order concatenation of the decoded strings shown under that selection
-Segments(fm, ops) ==
-    LET f == FoldLeft(LAMBDA acc, o :
-                          IF o.op = "Tf" THEN [sel |-> Selected(fm, o), segs |-> Append(acc.segs, <<>>)]
-                          ELSE IF OpKind(o) = "Show" /\ acc.sel # "none"
-                          THEN [acc EXCEPT !.segs[Len(acc.segs)] =
-                                   @ \o Concat([i \in 1..Len(Strings(o.args)) |-> Decode(fm[acc.sel], Strings(o.args)[i]).t])]
-                          ELSE acc,
-                      [sel |-> "none", segs |-> <<<<>>>>], ops)
-    IN f.segs
+\* the four operators of ISO 32000-1 9.4.3 show text
+ShowsText(o) == OpKind(o) \in {"Show", "Quote"}
+ShownStrings(o) == Strings(ShowOperands(o))
 
+\* What the page shows, read off the operations (ISO 32000-1 9.3.1, 9.4.3, 8.4.2): the font is set by Tf and is
+\* part of the graphics state that q saves and Q restores; Tj, TJ, ' and " show their strings with it.
+\*   segs   one entry per font selection (a Tf, a Q that brings back another font, and the text before the first
+\*          Tf), each the in-order concatenation of the decoded strings shown under that selection
+\*   err    some shown string does not decode
+\*   quote  text was shown by ' or ";  restored  a Q brought back a font other than the current one
+Shown(fm, ops) ==
+    FoldLeft(LAMBDA acc, o :
+                 IF o.op = "Tf" THEN [acc EXCEPT !.sel = Selected(fm, o), !.segs = Append(@, <<>>)]
+                 ELSE IF OpKind(o) = "Save" THEN [acc EXCEPT !.stack = Append(@, acc.sel)]
+                 ELSE IF OpKind(o) = "Restore" /\ acc.stack # <<>>
+                 THEN LET back == acc.stack[Len(acc.stack)]
+                          popped == [acc EXCEPT !.stack = SubSeq(@, 1, Len(@) - 1)]
+                      IN IF back # acc.sel THEN [popped EXCEPT !.sel = back, !.segs = Append(@, <<>>), !.restored = TRUE] ELSE popped
+                 ELSE IF ShowsText(o) /\ acc.sel # "none"
+                 THEN LET ss == ShownStrings(o)
+                          ds == [i \in 1..Len(ss) |-> Decode(fm[acc.sel], ss[i])]
+                      IN [acc EXCEPT !.segs[Len(acc.segs)] = @ \o Concat([i \in 1..Len(ds) |-> ds[i].t]),
+                                     !.err = @ \/ \E i \in 1..Len(ds) : ~ds[i].ok,
+                                     !.quote = @ \/ (IsQuote(o) /\ ss # <<>>)]
+                 ELSE acc,
+             [sel |-> "none", stack |-> <<>>, segs |-> <<<<>>>>, err |-> FALSE, quote |-> FALSE, restored |-> FALSE], ops)
+
+Segments(fm, ops) == Shown(fm, ops).segs
 AllShown(fm, ops) == Concat(Segments(fm, ops))
+
+\* the repairs of AllReps the page needs before the code can return what it shows (computed from the input)
+Needs(fm, ops) == (IF Shown(fm, ops).quote THEN {"quote-ops"} ELSE {}) \cup (IF Shown(fm, ops).restored THEN {"gstate-font"} ELSE {})
 
 \* the preconditions of (a) and (b): the call does not fail and no string fails to decode
 CallFails(ops) == \E i \in 1..Len(ops) : OpKind(ops[i]) = "TfNoOperand"
-DecodeErrorShown(fm, ops) ==
-    LET f == FoldLeft(LAMBDA acc, o :
-                          IF o.op = "Tf" THEN [acc EXCEPT !.sel = Selected(fm, o)]
-                          ELSE IF OpKind(o) = "Show" /\ acc.sel # "none"
-                                  /\ \E i \in 1..Len(Strings(o.args)) : ~Decode(fm[acc.sel], Strings(o.args)[i]).ok
-                          THEN [acc EXCEPT !.err = TRUE]
-                          ELSE acc,
-                      [sel |-> "none", err |-> FALSE], ops)
-    IN f.err
+DecodeErrorShown(fm, ops) == Shown(fm, ops).err
 Clean(fm, ops) == ~CallFails(ops) /\ ~DecodeErrorShown(fm, ops)
 
 OkTexts(chunks) == LET oks == SelectSeq(chunks, LAMBDA c : c.ok) IN [i \in 1..Len(oks) |-> oks[i].t]
 
 \* (a) nothing lost, nothing duplicated, nothing reordered
 ClauseA(fm, ops, chunks) == Clean(fm, ops) => Strip(Concat(OkTexts(chunks))) = Strip(AllShown(fm, ops))
-\* (b) a chunk never mixes text shown under two different Tf selections: the chunks that carry text are
-\*     exactly the Tf selections that showed text, one for one
+\* (b) a chunk never mixes text shown under two different font selections: the chunks that carry text are
+\*     exactly the selections that showed text, one for one
 ClauseB(fm, ops, chunks) ==
     Clean(fm, ops) => NonEmpty([i \in 1..Len(OkTexts(chunks)) |-> Strip(OkTexts(chunks)[i])])
                       = NonEmpty([i \in 1..Len(Segments(fm, ops)) |-> Strip(Segments(fm, ops)[i])])
@@ -169,12 +214,15 @@ ClauseC(chunks, et) ==
 \* (d) the result depends only on (fm, ops): two observations of the same page content agree
 ClauseD(obs1, obs2) == obs1 = obs2
 
-\* The domain C16's statement speaks about: every font of the page is a predefined one-byte encoding and
-\* every Tf names one of them ("text shown with such an encoding").  Inside it the statement demands the
-\* shown text back: the call succeeds and, layout characters aside, returns AllShown.
+\* The domain C16's statement speaks about: every font of the page is a predefined one-byte encoding, every
+\* Tf names one of them ("text shown with such an encoding") and nothing else sets the font (gs).  Inside it the
+\* statement demands the shown text back: the call succeeds and, layout characters aside, returns AllShown.
+\* Layout characters (the space and the newline) are the extractor's to place: a shown text that ends with a line
+\* feed and the ET that follows it need not yield two newlines ("returned unchanged" is literally met by one).
 InDomain(fm, ops) ==
     /\ \A n \in DOMAIN fm : fm[n].kind = "table" /\ fm[n].pre
-    /\ \A i \in 1..Len(ops) : ops[i].op = "Tf" => OpKind(ops[i]) = "TfName" /\ ops[i].args[1].v \in DOMAIN fm
+    /\ \A i \in 1..Len(ops) : /\ ops[i].op = "Tf" => OpKind(ops[i]) = "TfName" /\ ops[i].args[1].v \in DOMAIN fm
+                              /\ ops[i].op # "gs"
 ReturnsShown(fm, ops, et) == et.ok /\ Strip(et.t) = Strip(AllShown(fm, ops))
 
 -----------------------------------------------------------------------------
